@@ -1070,6 +1070,27 @@ pub fn gen_for(suite: &str, tier: &str, rng: &mut Rng, emit: &mut dyn FnMut(Stri
                     emit(l);
                 }
             }
+            // every selector that takes a day offset x offsets around and beyond what chrono can represent
+            // (the shifted date saturates at NaiveDate::MIN / MAX about 92 000 000 days away from today), BOTH
+            // signs: seed `C04-december-of-the-last-representable-year` panics only for a weekday position
+            // with a huge NEGATIVE offset (the date lands on 262142-12-31), which the list above did not have
+            let sel = ["Mo[1] {o}", "Su[-1] {o}", "Fr[2,-1] {o}", "Mo[1] {o} 10:00-12:00", "PH {o}", "SH {o}", "Jan 1 {o}", "easter {o}", "Feb 29 {o}", "Dec 31 {o}",
+                "Jan 1 {o}-Jan 10", "Jan 1-Jan 10 {o}", "2024 Jan 1 {o}-Feb 1", "2024 Jan 1-2024 Feb 1 {o}", "easter {o}-easter +3 days", "Dec 25 {o}-Jan 2 {o}", "24/7; Mo[2] {o} off"];
+            let mags = ["91000000", "92100000", "95700000", "96000000", "100000000", "999999999", "9223372036854775807"];
+            for s in sel {
+                for m in mags {
+                    for sign in ["+", "-"] {
+                        let e = s.replace("{o}", &format!("{sign}{m} days"));
+                        let ee = enc(&e);
+                        let ctx = if e.contains("PH") || e.contains("SH") { format!("ph={},{},{};sh={}", lo, hi - 1, ymd(2024, 5, 1), ymd(2024, 5, 2)) } else { "-".to_string() };
+                        for d in [ymd(2024, 1, 1), lo, hi - 1, ymd(2024, 12, 31)] {
+                            emit(format!("c04.sched {d} {ctx} {ee}"));
+                            emit(format!("c04.state {d}:43200000000000 {ctx} {ee}"));
+                            emit(format!("c04.nextw {d}:0 400 {ctx} {ee}"));
+                        }
+                    }
+                }
+            }
             // bounds from 0 to 10^4 years, and the extremes of TimeDelta
             for _ in 0..scale(300, 3_000) {
                 let e = gen_expr::expr(rng, &cfg);
